@@ -21,7 +21,7 @@ META = {
     "assumptions": ["A1 reals for floats", "A3 opaque transcendental functions: equality of outputs is proved for every interpretation of exp, cos, ...",
                     "exp_h1 is a symbolic input for the _apply_trotprop obligations; for propagate() the real _build_propagation_intermediates output at a "
                     "fixed small Hamiltonian is used"],
-    "bounds": {"quick": "4 walkers, norb 2, (1,1) electrons, 1 Cholesky matrix, n_exp_terms 2-3, n_batch in {1,2,4}, a transposition and a 4-cycle (generators of S4)",
+    "bounds": {"quick": "4 walkers, norb 2, (1,1) electrons, 1 Cholesky matrix, n_exp_terms 2-3, n_batch in {1,2,4}, a transposition and a 4-cycle (generators of S4); restricted-vs-unrestricted measurements also at norb 3 with 2 electrons per spin, 2 Cholesky matrices, 2 walkers",
                "thorough": "norb 3, 2 Cholesky matrices, 6 walkers"},
     "outside": "complete driver runs; more walkers; float rounding / XLA fusion differences between batch layouts",
 }
